@@ -9,9 +9,13 @@ namespace VaxisModel.Lemmas.KeyDecode
 open VaxisModel.Model.Key VaxisModel.Spec.KeyEnc VaxisModel.Gen.Keys
 
 /-- The work-around at the end of `decodeKey` is the documented `shiftFix`. -/
-theorem shiftText_eq (u : Uni) (k : Key) : shiftText u k = shiftFix u k := rfl
+theorem shiftText_eq (u : Uni) (k : Key) : shiftText u k = shiftFix u k := by
+  unfold shiftText shiftFix
+  by_cases hp : u.isPrint k.shifted = true
+  · simp only [hp, if_true]; rfl
+  · simp only [hp]; rfl
 
-theorem decodeKey_eq (u : Uni) (s : Seq) : decodeKey u s = shiftFix u (decodeRaw u s) := rfl
+theorem decodeKey_eq (u : Uni) (s : Seq) : decodeKey u s = shiftFix u (decodeRaw u s) := shiftText_eq u _
 
 theorem shiftFix_id (u : Uni) (k : Key) (h : k.text ≠ [] ∨ stripLocks k.mods ≠ shiftBit) : shiftFix u k = k := by
   unfold shiftFix
